@@ -1,10 +1,10 @@
 #!/bin/sh
 # usage: confirm_seed.sh <ID> <k>   -- independently confirms a seeded change from /tmp/seeds/<ID>/<k> in a scratch worktree:
 #   patch applies; full suite passes with it; demo fails with it; demo passes without it. Copies it to /verif/seeded/<ID>-<k>/ on success.
-ID=$1; K=$2; S=/tmp/seeds/$ID/$K; V=/verif
+ID=$1; K=$2; BASE=${3:-/tmp/seeds}; TAG=${4:-}; S=$BASE/$ID/$K; V=/verif
 [ -f $S/patch.diff ] && [ -f $S/demo_test.go ] && [ -f $S/meta.json ] || { echo "$ID/$K: incomplete"; exit 2; }
 export GOFLAGS=-mod=mod GOPROXY=off
-WT=/tmp/wt/confirm-$ID-$K
+WT=/tmp/wt/confirm-$ID-$TAG$K
 git -C /repo worktree add -q --detach $WT HEAD || exit 2
 trap 'git -C /repo worktree remove --force $WT >/dev/null 2>&1' EXIT
 cd $WT
@@ -18,10 +18,10 @@ if sh -c "$RUN" >/tmp/wt/confirm-$ID-$K.with.log 2>&1; then echo "$ID/$K: demo P
 git checkout -q -- . ; cp $S/demo_test.go $DIR/zz_seed_demo_test.go
 if ! sh -c "$RUN" >/tmp/wt/confirm-$ID-$K.without.log 2>&1; then echo "$ID/$K: demo FAILS without patch"; tail -5 /tmp/wt/confirm-$ID-$K.without.log; exit 1; fi
 rm -f /tmp/wt/confirm-$ID-$K.with.log /tmp/wt/confirm-$ID-$K.without.log
-mkdir -p $V/seeded/$ID-$K && cp $S/patch.diff $S/demo_test.go $V/seeded/$ID-$K/ && python3 - <<PY
+mkdir -p $V/seeded/$ID-$TAG$K && cp $S/patch.diff $S/demo_test.go $V/seeded/$ID-$TAG$K/ && python3 - <<PY
 import json
 m=json.load(open('$S/meta.json'))
 m['confirmed']={'by':'tools/confirm_seed.sh in a scratch worktree of /repo HEAD','ran':['git apply patch.diff','go build ./...','go test -vet=off -count=1 ./... (passes with patch)', m['demo_run']+' (fails with patch, passes without)']}
-json.dump(m,open('$V/seeded/$ID-$K/meta.json','w'),indent=1)
+json.dump(m,open('$V/seeded/$ID-$TAG$K/meta.json','w'),indent=1)
 PY
 echo "$ID/$K: CONFIRMED"
